@@ -11,9 +11,57 @@ class Unsupported(Exception):
     pass
 
 
+# ------------------------------------------------------------------------------------------- vendor cells
+# Opaque per-bit boxes. Pad cells: `din` data towards the pad, `dout` data from the pad (a free variable of
+# the evaluation), `en` (name, active level), `pad` I/O ports of the true half, `padn` of the complement half.
+# The first name that the cell instance actually has is used. Names as in amaranth/vendor/*.py.
+def _pad(din=(), dout=(), en=(), pad=(), padn=()):
+    return {"role": "pad", "din": din, "dout": dout, "en": en, "pad": pad, "padn": padn}
+
+
+VENDOR_CELLS = {
+    "SB_IO": _pad(("D_OUT_0",), ("D_IN_0",), (("OUTPUT_ENABLE", 1),), ("PACKAGE_PIN",)),
+    "SB_GB_IO": _pad(("D_OUT_0",), ("GLOBAL_BUFFER_OUTPUT", "D_IN_0"), (("OUTPUT_ENABLE", 1),), ("PACKAGE_PIN",)),
+    "IB": _pad(dout=("O",), pad=("I",)),
+    "OBZ": _pad(("I",), (), (("T", 0),), ("O",)),
+    "BB": _pad(("I",), ("O",), (("T", 0),), ("B",)),
+    "IBUF": _pad(dout=("O",), pad=("I",)),
+    "OBUFT": _pad(("I",), (), (("T", 0),), ("O",)),
+    "TBUF": _pad(("I",), (), (("OEN", 0),), ("O",)),
+    "IOBUF": _pad(("I",), ("O",), (("T", 0), ("OEN", 0)), ("IO",)),
+    "IBUFDS": _pad(dout=("O",), pad=("I",), padn=("IB",)),
+    "OBUFTDS": _pad(("I",), (), (("T", 0),), ("O",), ("OB",)),
+    "IOBUFDS": _pad(("I",), ("O",), (("T", 0),), ("IO",), ("IOB",)),
+    "TLVDS_IBUF": _pad(dout=("O",), pad=("I",), padn=("IB",)),
+    "TLVDS_TBUF": _pad(("I",), (), (("OEN", 0),), ("O",), ("OB",)),
+    "TLVDS_IOBUF": _pad(("I",), ("O",), (("OEN", 0),), ("IO",), ("IOB",)),
+    "altiobuf_in": _pad(dout=("dataout",), pad=("datain",), padn=("datain_b",)),
+    "altiobuf_out": _pad(("datain",), (), (("oe", 1),), ("dataout",), ("dataout_b",)),
+    "altiobuf_bidir": _pad(("datain",), ("dataout",), (("oe", 1),), ("dataio",), ("dataio_b",)),
+    # registers / LUTs between the fabric and the pad cell: transparent D -> Q boxes, LUT4 by its INIT parameter
+    "SB_DFF": {"role": "pass", "d": "D", "q": "Q"},
+    "FDCE": {"role": "pass", "d": "D", "q": "Q"},
+    "IFS1P3DX": {"role": "pass", "d": "D", "q": "Q"},
+    "OFS1P3DX": {"role": "pass", "d": "D", "q": "Q"},
+    "IFD1P3DX": {"role": "pass", "d": "D", "q": "Q"},
+    "OFD1P3DX": {"role": "pass", "d": "D", "q": "Q"},
+    "SB_LUT4": {"role": "lut4", "q": "O"},
+}
+
+
+def _first(names, have):
+    for n in names:
+        key = n[0] if isinstance(n, tuple) else n
+        if key in have:
+            return n
+    return None
+
+
 # ------------------------------------------------------------------------------------------- NIR
 class NirEval:
-    def __init__(self, nl):
+    def __init__(self, nl, vendor=False):
+        self.vendor = vendor
+        self.vfree = {}          # (cell index, output bit) -> value of an opaque pad cell output
         from amaranth.hdl import _nir
         self._nir = _nir
         self.nl = nl
@@ -21,6 +69,10 @@ class NirEval:
         self.ffs = [(i, c) for i, c in enumerate(nl.cells) if isinstance(c, _nir.FlipFlop)]
         self.ff_state = {i: c.init for i, c in self.ffs}
         for i, c in enumerate(nl.cells):
+            if vendor and isinstance(c, _nir.Instance):
+                if c.type not in VENDOR_CELLS:
+                    raise Unsupported(f"vendor cell type {c.type} is not in the table")
+                continue
             if not isinstance(c, (_nir.Top, _nir.Operator, _nir.IOBuffer, _nir.FlipFlop, _nir.Match, _nir.AssignmentList)):
                 raise Unsupported(f"unexpected cell {c!r} in an I/O buffer netlist")
         self.env = {}
@@ -56,7 +108,23 @@ class NirEval:
         if isinstance(cell, _nir.Top):
             v = self.env[n]
         elif isinstance(cell, _nir.FlipFlop):
-            v = (self.ff_state[ci] >> bit) & 1
+            # vendor leg: registers are transparent, only the wiring around them is judged
+            v = self.net(cell.data[bit], memo) if self.vendor else (self.ff_state[ci] >> bit) & 1
+        elif self.vendor and isinstance(cell, _nir.Instance):
+            spec = VENDOR_CELLS[cell.type]
+            oname, k = None, None
+            for name, (start, width) in cell.ports_o.items():
+                if start <= bit < start + width:
+                    oname, k = name, bit - start
+            if spec["role"] == "pad":
+                v = self.vfree.get((ci, bit), 0)
+            elif spec["role"] == "pass" and oname == spec["q"]:
+                v = self.net(cell.ports_i[spec["d"]][k], memo)
+            elif spec["role"] == "lut4" and oname == spec["q"]:
+                idx = sum(self.net(cell.ports_i[f"I{x}"][0], memo) << x for x in range(4))
+                v = (cell.parameters["LUT_INIT"].value >> idx) & 1
+            else:
+                raise Unsupported(f"output {oname} of vendor cell {cell.type}")
         elif isinstance(cell, _nir.IOBuffer):
             io = cell.port[bit]
             v = self.pad_value((io.port, io.bit), memo)
@@ -96,6 +164,34 @@ class NirEval:
         if op == "m":
             return self.net(ins[1][bit], memo) if self.net(ins[0][0], memo) else self.net(ins[2][bit], memo)
         raise Unsupported(f"operator {op}")
+
+    def vendor_pads(self):
+        """[(cell index, cell, spec, {(io port index, bit): (role 'pad'|'padn', channel)})] of every pad cell"""
+        out = []
+        for ci, c in enumerate(self.nl.cells):
+            if isinstance(c, self._nir.Instance) and VENDOR_CELLS[c.type]["role"] == "pad":
+                spec = VENDOR_CELLS[c.type]
+                touch = {}
+                for name, (value, _dir) in c.ports_io.items():
+                    role = "pad" if name in spec["pad"] else "padn" if name in spec["padn"] else None
+                    if role is None:
+                        raise Unsupported(f"I/O port {name} of vendor cell {c.type} is not in the table")
+                    for k, io in enumerate(value):
+                        touch[(io.port, io.bit)] = (role, k)
+                out.append((ci, c, spec, touch))
+        return out
+
+    def vendor_pins(self, ci, c, spec, k, memo):
+        """-> (din value | None, enable (active high) | None, key of the free dout variable | None) of channel k"""
+        din = _first(spec["din"], c.ports_i)
+        en = _first(spec["en"], c.ports_i)
+        dout = _first(spec["dout"], c.ports_o)
+        dv = self.net(c.ports_i[din][k], memo) if din else None
+        ev = None
+        if en:
+            raw = self.net(c.ports_i[en[0]][k], memo)
+            ev = raw if en[1] else 1 - raw
+        return dv, ev, ((ci, c.ports_o[dout][0] + k) if dout else None)
 
     def drivers(self, memo):
         """{(port, bit): [(value, enable)]} for every output / inout buffer cell"""
@@ -348,6 +444,9 @@ class RtlilEval:
         self.raw = []         # (key, driver)
         self.tribufs = []     # (path, cell name, Y keys, A bits, EN bit)
         self.dffs = []        # (path, name, D bits, CLK bit, polarity)
+        self.vcells = []      # vendor cells: (path, name, type, spec, params, conns)
+        self.vfree = {}       # (path, name, channel) -> value of an opaque pad cell output
+        self.transparent_ff = False
         self.state = {}
         self.ext = {}
         self._build((), mods[top])
@@ -430,6 +529,17 @@ class RtlilEval:
             elif typ in ("$xor", "$and", "$or", "$not", "$pos", "$mux"):
                 for k, b in enumerate(conns["\\Y"]):
                     self.raw.append((self.key(path, b), ("op", typ, path, conns, k)))
+            elif typ.startswith("\\") and typ[1:] in VENDOR_CELLS:
+                spec = VENDOR_CELLS[typ[1:]]
+                cn = {k[1:]: v for k, v in conns.items()}
+                self.vcells.append((path, name, typ[1:], spec, params, cn))
+                if spec["role"] == "pad":
+                    dout = _first(spec["dout"], cn)
+                    for k, b in enumerate(cn[dout] if dout else []):
+                        self.raw.append((self.key(path, b), ("vfree", (path, name, k))))
+                else:
+                    for k, b in enumerate(cn[spec["q"]]):
+                        self.raw.append((self.key(path, b), ("vbox", path, typ[1:], spec, params, cn, k)))
             else:
                 raise Unsupported(f"RTLIL cell {typ}")
 
@@ -455,7 +565,21 @@ class RtlilEval:
         elif d[0] == "tri":
             v = self.bit(d[1], d[2], memo) if self.bit(d[1], d[3], memo) else self.ext.get(key, 0)
         elif d[0] == "ff":
-            v = (self.state[d[1]] >> d[2]) & 1
+            if self.transparent_ff:
+                dff = next(x for x in self.dffs if (x[0], x[1]) == d[1])
+                v = self.bit(dff[0], dff[2][d[2]], memo)
+            else:
+                v = (self.state[d[1]] >> d[2]) & 1
+        elif d[0] == "vfree":
+            v = self.vfree.get(d[1], 0)
+        elif d[0] == "vbox":
+            _v, path, typ, spec, params, cn, k = d
+            if spec["role"] == "pass":
+                v = self.bit(path, cn[spec["d"]][k], memo)
+            else:
+                idx = sum(self.bit(path, cn[f"I{x}"][0], memo) << x for x in range(4))
+                init = params["\\LUT_INIT"]
+                v = (int(init.split("'")[1], 2) >> idx) & 1
         elif d[0] == "proc":
             _p, path, name, body, b = d
             pk = ("proc", path, name)
@@ -509,6 +633,41 @@ class RtlilEval:
         if wire not in self.mods[self.top].wires:
             return 0
         return sum(self.keyval(self.find(((), wire, k)), memo) << k for k in range(self.mods[self.top].wires[wire][0]))
+
+    def terminal(self, key):
+        """follow plain wire-to-wire connections from a bit to the bit that finally stands for it"""
+        key = self.find(key)
+        while True:
+            d = self.driver.get(key)
+            if d is not None and d[0] == "bit" and d[2][0] == "w":
+                key = self.find(self.key(d[1], d[2]))
+                continue
+            return key
+
+    def vendor_pads(self):
+        """[(cell id, type, spec, conns, path, {terminal key of a pad bit: (role, channel)})]"""
+        out = []
+        for path, name, typ, spec, params, cn in self.vcells:
+            if spec["role"] != "pad":
+                continue
+            touch = {}
+            for pname in spec["pad"] + spec["padn"]:
+                if pname in cn:
+                    for k, b in enumerate(cn[pname]):
+                        if b[0] != "w":
+                            raise Unsupported(f"pad port {pname} of {typ} is tied to a constant")
+                        touch[self.terminal(self.key(path, b))] = ("pad" if pname in spec["pad"] else "padn", k)
+            out.append(((path, name), typ, spec, cn, path, touch))
+        return out
+
+    def vendor_pins(self, cid, spec, cn, path, k, memo):
+        din, en, dout = _first(spec["din"], cn), _first(spec["en"], cn), _first(spec["dout"], cn)
+        dv = self.bit(path, cn[din][k], memo) if din else None
+        ev = None
+        if en:
+            raw = self.bit(path, cn[en[0]][k], memo)
+            ev = raw if en[1] else 1 - raw
+        return dv, ev, ((cid[0], cid[1], k) if dout else None)
 
     def pad_drivers(self, wire, k, memo):
         """[(value, enable)] of every $tribuf bit that reaches top-level wire bit (wire, k)"""
